@@ -3,8 +3,9 @@ import random
 from .. import forkrun, tracecheck
 
 COMPOUNDS = ["H2O@1", "NaCl@2.16", "D2O@1n", "Fe2O3@5.24", "C12H22O11@1.59", "SiO2@2.2", "Au", "Co", "Si", "Cr", "Fe", "Ni",
-             "CaCO3", "C2H6O", "Ca{2+}Cl{-}2@2.15", "Fe[56]2O3@5", "H2O", "Ti", "Al2O3@3.95", "2H2O@1", "(H2O)10@1"]
-WITH_DENS = [c for c in COMPOUNDS if "@" in c or c in ("Au", "Co", "Si", "Cr", "Fe", "Ni", "Ti")]
+             "CaCO3", "C2H6O", "Ca{2+}Cl{-}2@2.15", "Fe[56]2O3@5", "H2O", "Ti", "Al2O3@3.95", "2H2O@1", "(H2O)10@1",
+             "WC@15.6", "W", "V2O5@3.36", "V", "Mo", "Mg"]
+WITH_DENS = [c for c in COMPOUNDS if "@" in c or c in ("Au", "Co", "Si", "Cr", "Fe", "Ni", "Ti", "W", "V", "Mo", "Mg")]
 WKW = ["wt%", "%wt", "w%", "%w", "weight%", "%weight", "mass%", "%mass", "m%", "%m"]
 VKW = ["vol%", "%vol", "v%", "%v", "volume%", "%volume"]
 MASSU = ["kg", "g", "mg", "ug", "ng"]
@@ -87,6 +88,9 @@ def tasks(ctx, quick):
         if i % 5 == 2:      # a component of quantity zero vanishes whether or not its density is known
             comps.insert(rng.randrange(len(comps) + 1), [["str", rng.choice(["H2O", "CaCO3", "C2H6O", "Fe2O3@5.24"])], 0])
         t = {"kind": "mix", "mode": mode, "comps": comps}
+        if i % 3 == 1 and all(e[0] == "str" for e, q in comps):
+            t["strings"] = True
+            t["T"] = rng.choice(["T2", "T2", "T1", None])
         if i % 17 == 0:
             t["density"] = 3.21
         add(t)
@@ -130,6 +134,8 @@ def tasks(ctx, quick):
             add({"kind": "mixstr", "spec": sub})
             spec["parts"][rng.randrange(len(spec["parts"]))] = {"sub": sub, "rep": rng.choice([1, 2, 3, 10])}
         add({"kind": "mixstr", "spec": spec})
+        if i % 5 == 3:
+            items[-1]["kw"] = rng.choice([{"name": "sample 7"}, {"name": "x", "table": None}])
         if form in ("wt%", "vol%") and r >= 0.25 and i % 3 == 0 and not (i % 40 == 0 or i % 44 == 1):
             # the string means the same as the call
             qs = [p["q"] for p in spec["parts"][:-1]]
